@@ -19,7 +19,8 @@ CLAIMED = {
              "invalidation or goes through an invalidating accessor; alias hand-out, privacy of cache entries, "
              "cache-key coverage, pattern/label agreement and external writers are decided as well. This covers every "
              "sequence of mutator/query calls because it constrains each mutator, not a sampled history; it decides the "
-             "mechanism the property rests on, not value equality of resolved configurations.",
+             "mechanism the property rests on, not value equality of resolved configurations."
+             " The value stored in the cache is the value returned; component names are escaped in invalidation patterns; the guard pins ignore_convert_errors as well.",
         technique="CFG-based flow-sensitive may-alias + effect analysis (write => invalidate), who-may-write, "
                   "cache-key coverage",
         design="3/C08"),
@@ -32,7 +33,8 @@ CLAIMED["C01"] = dict(
          "with no active producer and all subjects staged in, an exhaustive truth table of the producer/subject "
          "partition, single-writer rules for comp_done/comp_staged_in, lock scope and launch order. These hold for every "
          "interleaving because they constrain the only code that launches or marks components done; the rx delivery "
-         "order of notifications is not modelled.",
+         "order of notifications is not modelled."
+         " Final states are assigned directly only for the stages a restart skipped; a subject that is being finished does not satisfy an observer's dependency.",
     technique="call-site enumeration (who-may-call), CFG edge-dominance, finite truth table of filter predicates, "
               "single-writer and lock-scope lint",
     design="3/C01")
@@ -46,7 +48,8 @@ CLAIMED["C02"] = dict(
          "all producers observed, the finishCalled veto of every postMortemCheck subscription evaluated at delivery "
          "(after the last scheduler-hopping rx operator), and the "
          "shutdown-propagation table. Decides the obligations without which some ordering leaves a component pending "
-         "or in a rule-violating state; does not explore interleavings.",
+         "or in a rule-violating state; does not explore interleavings."
+         " Every component that is stopped by finishedCheck has an observer first (the gate is exactly 'not staged in').",
     technique="statement CFG with handler/finally modelling: must-pass-through, per-path call counting, branch-table "
               "recognition",
     design="3/C02")
@@ -88,7 +91,8 @@ CLAIMED["C03"] = dict(
          "reference counts as replicated only for a positive propagated count of a non-aggregating producer, every "
          "component is emitted by one branch, counts propagate topologically and stop at aggregating components. "
          "The variable scope a replica count is read from is a fresh copy per component (the merge helper mutates its first argument). "
-         "Equality of the expanded dataflow with an independent expansion is not decided.",
+         "Equality of the expanded dataflow with an independent expansion is not decided."
+         " Every reference to a replicated producer is registered for rewriting (no other condition gates the registration).",
     technique="substitution-site lint with pattern-shape analysis (SUB), format-string agreement, CFG edge-dominance",
     design="3/C03")
 CLAIMED["C05"] = dict(
@@ -98,7 +102,8 @@ CLAIMED["C05"] = dict(
          "in stored loop bindings, deep copy + persistence in next-iteration, anchored rewriting, loop state from the "
          "numeric maximum, aggregate references ordered numerically by producer or consumer, and the placeholder's "
          "instance list modified only inside graph.py (flow-sensitive alias analysis of its readers) and selected by the "
-         "placeholder's stage and name (component-wise dependence analysis with helper inlining). Holds for every iteration count because it constrains the comparison, not sampled counts.",
+         "placeholder's stage and name (component-wise dependence analysis with helper inlining). Holds for every iteration count because it constrains the comparison, not sampled counts."
+         " The rewritten loop binding is re-assembled from stage, producer, file and method of the original one.",
     technique="sibling cross-check lint over sort keys, format/parser agreement, CFG edge-dominance, SUB, "
               "reaching-definition alias analysis (who-may-write)",
     design="3/C05")
@@ -109,7 +114,8 @@ CLAIMED["C10"] = dict(
          "nowhere else, the stage-less relative spelling is used only on the side where the reference's absolute "
          "spelling was not found, values are inserted verbatim (callable), and inserted text is never rescanned (one pass "
          "outside the loop over the references); DataReference.resolve and resolveArguments keep no state between calls and the "
-         ":output value returned is, on every path, read from the file in that call. The four str.replace sites that violated it were a genuine, reproduced defect and were repaired.",
+         ":output value returned is, on every path, read from the file in that call. The four str.replace sites that violated it were a genuine, reproduced defect and were repaired."
+         " The registered value is assigned afresh on every path of the iteration; a relative spelling is registered only for the reference that owns it (decided order-independently before the loop) and next to the absolute one; the final fill-in over inserted values is a recorded known finding.",
     technique="substitution-site lint with pattern-shape analysis (SUB), local def-use of replacement values, CFG edge-dominance, "
               "non-local effect analysis (STATE), reaching definitions",
     design="3/C10")
@@ -154,7 +160,8 @@ CLAIMED["C04"] = dict(
          "the whole string after every substitution (scan position advanced only under a tolerance guard, by one "
          "character), the resolver cache is transparent (C08 analysis re-used), and typed-option "
          "table agreement (schema admits bool/int/float => a string-safe converter exists). Covers every combination "
-         "of layers; value equality with an independent resolver is not decided.",
+         "of layers; value equality with an independent resolver is not decided."
+         " The flattening used by non-primitive loads lets the same scope win as the live resolver for every definition pattern; its early substitution inside the global/stage layers is a recorded known finding (three constructs).",
     technique="statement-order and CFG analysis of the resolver, handler swallow-path analysis, schema/converter "
               "table agreement",
     design="3/C04")
@@ -218,7 +225,8 @@ CLAIMED["C07"] = dict(
          "key-preserving functions only; the flattening of the four variable scopes in instance() lets the same "
          "scope win as the live resolver get_component_variables for all 16+4 scope-membership patterns of a name "
          "(abstract interpretation of the dictionary layering). Equality of resolved configurations after a reload is not decided."
-         " The store function writes and publishes on every normal return (no silent early return).",
+         " The store function writes and publishes on every normal return (no silent early return)."
+         " Folder discovery on reload follows the symbolic links that deployment creates.",
     technique="writer/schema key-set agreement, CFG edge-dominance and statement-order (must-pass-through) checks, "
               "abstract interpretation of dict layering over a finite membership domain (sibling agreement)",
     design="3/C07")
@@ -248,7 +256,8 @@ CLAIMED["C06"] = dict(
          "component by component; a declared default is stored only when the parameter is absent (never because the supplied "
          "value is falsy); no mapping is indexed with a key on the failing side of its own membership test (one genuine defect repaired). That the "
          "producer/consumer relation equals the flattened reference relation for all namespaces and that the result is "
-         "accepted by the FlowIR validator need execution and are not decided.",
+         "accepted by the FlowIR validator need execution and are not decided."
+         " The cycle detector's view of the open scopes is maintained symmetrically by enter()/exit(); match objects are tested before use; no while loop of the compiler has a cycle on which nothing changes; split() accepts full prefixes only.",
     technique="explicit-raise escape analysis over a name-resolved call graph, error-collection lint, SUB, naming-loop "
               "uniqueness check",
     design="3/C06")
